@@ -28,6 +28,14 @@ theorem requests_are_exactly_the_needed_ids (need : List Nat) (es : List Ev) (s 
   obtain ⟨h1, _, h3, h4⟩ := receiver_protocol need es s h
   exact ⟨fun hr => (h1 id hr).1, fun hn => h3 id ((h4 hf).2 id hn)⟩
 
+/-- Nothing is stored for an id that was not requested: in every reachable state each stored chunk
+belongs to a requested (hence needed and announced) id. -/
+theorem stored_only_for_requested (need : List Nat) (es : List Ev) (s : St) (h : run { need := need } es = some s) :
+    ∀ x ∈ s.stored, x.1 ∈ s.reqd ∧ x.1 ∈ s.need :=
+  fun x hx =>
+    have hr := storedReq_run es _ _ (by intro y hy; simp at hy) h x hx
+    ⟨hr, ((receiver_protocol need es s h).1 x.1 hr).1⟩
+
 /-- non-vacuity -/
 example : (run { need := [1] } [.rStat, .rStat, .sReq 1, .rData 1 [7, 8], .rEnd, .rData 1 [9], .rTerm 1, .sFin]).isSome = true := by
   decide
